@@ -1,11 +1,14 @@
 #!/bin/sh
 # re-confirm every seeded change against /repo's HEAD and re-run the checks it is filed under
-# usage: tools/reseed_all.sh [lanes]   (default 4 seeds at a time; every seed works in scratch worktrees of its own)
+# usage: tools/reseed_all.sh [lanes] [first-id]  (default 4 seeds at a time; every seed works in scratch worktrees of its own).
+# Seeds were fully confirmed (suite green with and without the patch) when they were filed; here only the demonstration's own
+# tests are re-run (SEED_LIGHT) and a seed that cannot be re-confirmed keeps its meta.json (SEED_KEEP_ON_FAIL) and is reported.
 cd /verif
-lanes=${1:-4}
-ls -d seeded/*/ | xargs -P $lanes -I{} sh -c '
+lanes=${1:-4}; first=${2:-C00}
+export SEED_LIGHT=1 SEED_KEEP_ON_FAIL=1
+ls -d seeded/*/ | awk -v f=seeded/$first '$0 >= f' | xargs -P $lanes -I{} sh -c '
   d={}; id=$(basename $d)
   prop=$(python3 -c "import json;print(json.load(open(\"$d/meta.json\"))[\"property\"])")
   checks=$(python3 -c "import json;print(\" \".join(r[\"check\"] for r in json.load(open(\"$d/meta.json\"))[\"ran\"]))")
   [ -z "$checks" ] && checks=$prop
-  python3 tools/seed.py $id seeded/$id $prop $checks 2>&1 | tail -1 | cut -c1-300'
+  python3 tools/seed.py $id seeded/$id $prop $checks 2>&1 | tail -2 | cut -c1-300'
